@@ -92,10 +92,10 @@ func c07Run(c *fw.Ctx) {
 	envs := &authEnvCache{}
 	defer envs.close()
 	uris := c07URIs(c.Thorough())
-	rootLists := [][]string{{"sso.test"}, {".sso.test", "other.test"}}
+	rootLists := [][]string{{"sso.test"}, {".sso.test", "other.test"}, {"*.sso.test"}}
 	sigs := []string{"valid", "valid-for-another-uri", "wrong-secret", "missing", "not-base64"}
 	tss := []string{"now", "-299s", "-301s", "+1h", "non-numeric", "missing", "min-int64", "min-int64+1", "zero", "minus-now", "max-int64"}
-	endpoints := []string{"sign_in/no-cookie", "sign_in/cookie", "sign_out/GET/cookie", "sign_out/GET/no-cookie", "sign_out/POST/cookie", "sign_out/POST/no-cookie", "start/nested", "start/outer", "callback/state", "sign_out-split/POST/cookie", "sign_out-split/POST/no-cookie", "callback-error/state"}
+	endpoints := []string{"sign_in/no-cookie", "sign_in/cookie", "sign_out/GET/cookie", "sign_out/GET/no-cookie", "sign_out/POST/cookie", "sign_out/POST/no-cookie", "start/nested", "start/outer", "callback/state", "sign_out-split/POST/cookie", "sign_out-split/POST/no-cookie", "callback-error/state", "sign_out-split-query-signed/POST/cookie", "sign_out-split-query-signed/POST/no-cookie"}
 	if !c.Thorough() {
 		tss = []string{"now", "-301s", "+1h", "missing", "min-int64"}
 	}
@@ -165,16 +165,22 @@ func c07Run(c *fw.Ctx) {
 		var postBody []byte
 		parts := strings.Split(ep, "/")
 		switch parts[0] {
-		case "sign_out-split":
-			// the URI under test is in the QUERY; a correctly signed, fresh, in-domain URI is in the form body
+		case "sign_out-split", "sign_out-split-query-signed":
+			// one place (form body or query) carries the URI under test with its sig/ts, the other a correctly
+			// signed, fresh, in-domain URI: "-split" puts the URI under test in the QUERY, "-query-signed" in the BODY
 			good := "https://app.sso.test/"
-			body := url.Values{"redirect_uri": {good}, "sig": {harness.Sign(good, now.Unix(), harness.ClientSecret)}, "ts": {fmt.Sprint(now.Unix())}}
-			q.Set("redirect_uri", uri)
+			signedSet := url.Values{"redirect_uri": {good}, "sig": {harness.Sign(good, now.Unix(), harness.ClientSecret)}, "ts": {fmt.Sprint(now.Unix())}}
+			tested := url.Values{"redirect_uri": {uri}}
 			if sig != "" {
-				q.Set("sig", sig)
+				tested.Set("sig", sig)
 			}
 			if ts != "" {
-				q.Set("ts", ts)
+				tested.Set("ts", ts)
+			}
+			body := signedSet
+			q = tested
+			if parts[0] == "sign_out-split-query-signed" {
+				body, q = tested, signedSet
 			}
 			method = "POST"
 			hdr.Set("Content-Type", "application/x-www-form-urlencoded")
@@ -273,8 +279,12 @@ func c07Run(c *fw.Ctx) {
 			default:
 				outcome = "redirect"
 				ok, h1, h2 := bothInDomain(resp.Location, base, roots)
-				if parts[0] == "sign_out-split" && resp.Location == "https://app.sso.test/" {
-					// the signed URI from the body: a legitimate sign-out redirect
+				// (a ts missing from one place is taken from the other place, where it is the current time —
+				// the time the signature under test was made for)
+				splitSignedOK := signedOK || (sigKind == "valid" && tsKind == "missing")
+				if strings.HasPrefix(parts[0], "sign_out-split") && (resp.Location == "https://app.sso.test/" || (resp.Location == uri && splitSignedOK && inDomain)) {
+					// one of the two presented URIs, and that one correctly signed, fresh and in domain: a
+					// legitimate sign-out redirect
 					c.Res.Count("positive_redirects_in_domain", 1)
 					break
 				}
@@ -282,8 +292,8 @@ func c07Run(c *fw.Ctx) {
 					viol("redirect-out-of-domain/"+parts[0]+"/"+uriClass(uri), fmt.Sprintf("%s redirected the browser to %q, which resolves to %q (RFC 3986) / %q (browser) outside %v", ep, resp.Location, h1, h2, roots))
 				}
 				hasCode := err == nil && loc.Query().Get("code") != ""
-				if parts[0] == "sign_out-split" {
-					viol("redirect-to-unsigned-parameter/"+uriClass(uri), fmt.Sprintf("sign-out redirected to %q taken from the query although the signed URI was the one in the body", resp.Location))
+				if strings.HasPrefix(parts[0], "sign_out-split") {
+					viol("redirect-to-unsigned-parameter/"+parts[0]+"/"+uriClass(uri), fmt.Sprintf("sign-out redirected to %q although the correctly signed URI was the other one presented", resp.Location))
 				}
 				if (hasCode || parts[0] == "sign_out" || parts[0] == "sign_in") && !signedOK {
 					viol("redirect-without-valid-signature/"+parts[0]+"/sig="+sigKind+"/ts="+tsKind, fmt.Sprintf("%s redirected (code attached: %v) although the URI was not signed with a fresh timestamp", ep, hasCode))
